@@ -40,7 +40,7 @@ def _flags(t, value: bool):
 
 def _no_isinstance(t, value=False):
     for _ in range(3):
-        conds = [x[1] for x in T.walk(t) if x[0] == "ite" and x[1][0] == "call" and x[1][1] == "isinstance"]
+        conds = [a for x in T.walk(t) if x[0] == "ite" for a in T.walk(x[1]) if a[0] == "call" and a[1] == "isinstance"]
         if not conds:
             break
         for c in conds:
